@@ -185,7 +185,8 @@ func injectInto(t *rapid.T, c *core.Ctx, f *model.File, elem jv.V, defOnly bool)
 	}
 	walk(root, nil, 0, false)
 	// items of a DECLARED array type and the value schema of a map type go through other code paths
-	sites = append(sites, site{nil, "definition-array-items"}, site{nil, "map-additional-properties"}, site{nil, "definition-nested-array-items"})
+	sites = append(sites, site{nil, "definition-array-items"}, site{nil, "map-additional-properties"}, site{nil, "definition-nested-array-items"},
+		site{nil, "definition-properties-next-to-allOf"}, site{nil, "definition-properties-next-to-anyOf"}, site{nil, "definition-property-items-next-to-allOf"})
 	var usable []site
 	for _, s := range sites {
 		if defOnly && s.kind != "definition" {
@@ -223,6 +224,29 @@ func injectInto(t *rapid.T, c *core.Ctx, f *model.File, elem jv.V, defOnly bool)
 			defs = jv.ObjV()
 		}
 		return root.Set(kw, defs.Set("InjectedArr", arr)), &injection{site: s.kind}
+	case "definition-properties-next-to-allOf", "definition-properties-next-to-anyOf", "definition-property-items-next-to-allOf":
+		// a declared object that has properties AND a composition list: the fault sits among the
+		// sibling properties, not in a branch
+		kw := "allOf"
+		if strings.HasSuffix(s.kind, "anyOf") {
+			kw = "anyOf"
+		}
+		bad := elem
+		if strings.Contains(s.kind, "items") {
+			bad = jv.ObjV(jv.Field("type", jv.StrV("array")), jv.Field("items", elem))
+		}
+		comp := jv.ObjV(jv.Field("type", jv.StrV("object")),
+			jv.Field("properties", jv.ObjV(jv.Field("ok", jv.ObjV(jv.Field("type", jv.StrV("string")))), jv.Field("zzInjected", bad))),
+			jv.Field(kw, jv.ArrV(jv.ObjV(jv.Field("type", jv.StrV("object")), jv.Field("properties", jv.ObjV(jv.Field("q", jv.ObjV(jv.Field("type", jv.StrV("integer"))))))))))
+		dkw := "$defs"
+		if root.Has("definitions") {
+			dkw = "definitions"
+		}
+		defs, _ := root.Get(dkw)
+		if defs.K != jv.Obj {
+			defs = jv.ObjV()
+		}
+		return root.Set(dkw, defs.Set("InjectedComp", comp)), &injection{site: s.kind}
 	case "map-additional-properties":
 		props, _ := root.Get("properties")
 		if props.K != jv.Obj {
@@ -279,10 +303,17 @@ func evalC18InProc(cc *c18Case) (bool, string) {
 	return false, ""
 }
 
+var c18HangConfirmed bool
+
 func evalC18CLI(cc *c18Case) (bool, string, error) {
 	res, err := gen.RunCLI(cc.Case, cc.Pre, cc.Argv, 30*time.Second, false)
 	if err != nil {
 		return false, "", err
+	}
+	if res.TimedOut && c18HangConfirmed {
+		// a hang was already confirmed with the long limit in this process (shrinking re-runs
+		// variations of that case): the short limit decides
+		return true, "the tool did not terminate within 30 s (" + cc.What + "; a 300 s run of a related case did not end either)", nil
 	}
 	if res.TimedOut {
 		// re-run alone with a long limit before calling it a hang
@@ -291,6 +322,7 @@ func evalC18CLI(cc *c18Case) (bool, string, error) {
 			return false, "", err
 		}
 		if res2.TimedOut {
+			c18HangConfirmed = true
 			return true, "the tool did not terminate within 300 s (" + cc.What + ")", nil
 		}
 		res = res2
@@ -366,7 +398,7 @@ func TestC18(t *testing.T) {
 	res := c.Rapid("faults", c.N(1500, 40000), 0, func(rt *rapid.T) {
 		f := prof.File(rt, "prog.json")
 		cfg := baseConfig()
-		kind := rapid.SampledFrom([]string{"content", "content", "inject", "inject", "inject", "config"}).Draw(rt, "kind")
+		kind := rapid.SampledFrom([]string{"content", "content", "inject", "inject", "inject", "config", "names", "content", "inject", "inject", "config", "content"}).Draw(rt, "kind")
 		cc := &c18Case{Kind: kind}
 		switch kind {
 		case "content":
@@ -396,6 +428,27 @@ func TestC18(t *testing.T) {
 				name = "prog.yaml"
 			}
 			cc.Case = &gen.Case{Files: []gen.FileText{{RelPath: name, Text: text}}, Inputs: []string{name}, Config: cfg}
+		case "names":
+			// a VALID schema whose type names coincide with what the emitted methods declare locally
+			// (Plain, Plain_0, ...): the run has to end, and end well; always through the real CLI
+			nm := rapid.SampledFrom([]string{"Plain", "plain", "PLAIN", "Plain_0", "Raw"}).Draw(rt, "localname")
+			one := 1
+			def := &model.Node{Kind: model.KObject, Props: []model.Prop{{Name: "id", Node: &model.Node{Kind: model.KString, MinLength: &one}}}, Required: []string{"id"}}
+			f.Defs = append(f.Defs, model.Def{Name: nm, Node: def})
+			if f.Root.Kind == model.KObject {
+				f.Root.Props = append(f.Root.Props, model.Prop{Name: "zlocalname", Node: &model.Node{Kind: model.KRef, Ref: "#/$defs/" + nm, Target: def}})
+			}
+			switch rapid.IntRange(0, 2).Draw(rt, "localnameroot") {
+			case 0:
+				f.Title, cfg.StructNameFromTitle = "plain", true
+			case 1:
+				cfg.Mappings = []gen.Mapping{{ID: f.ID, Package: cfg.DefaultPackage, Output: "-", RootType: "Plain"}}
+			}
+			cfg.ExtraImports = rapid.Bool().Draw(rt, "localnameyaml")
+			cc.Case = caseOf(cfg, []string{f.RelPath}, f)
+			cc.Argv = cc.Case.Config.Args()
+			cc.Argv = append(cc.Argv, cc.Case.Inputs...)
+			cc.What = "valid schema with a type named " + nm
 		case "inject":
 			// the host schema must be accepted as it is
 			host := caseOf(cfg, []string{f.RelPath}, f)
